@@ -271,7 +271,8 @@ theorem C12_credit_invariant_full_false : ¬ C12_credit_invariant_full := by
     by each transition of an exchange on a live connection (the class of histories without
     reconnect-in-limbo and without reading the counter between connections):
     an accepted QoS>0 PUBLISH (+1 on both sides), a refused one (nothing changes), PUBACK and
-    PUBCOMP for an awaited identifier (−1 on both sides). -/
+    PUBCOMP for an awaited identifier (−1 on both sides).  Since fix ba1a812 also `release_packet_id`
+    (−1 on both sides for an abandoned PUBLISH, nothing otherwise): `C12_credit_invariant_release`. -/
 theorem C12_credit_invariant_partial (c : C) (limbo : List Nat) (heq : CreditEq c.s limbo) :
     -- accepted / refused PUBLISH
     (∀ (p : Pkt) (id M : Nat), sizeOk c p = true → p.qos > 0 → p.pid = some id → pubNotAllowed c.s = false →
@@ -323,6 +324,66 @@ theorem C12_credit_invariant_partial (c : C) (limbo : List Nat) (heq : CreditEq 
     have e0 := heq M hM0
     have := length_del hin hnd
     simp only [waitCount, a1, a2, a3, a4] at e0 ⊢
+    omega
+
+/-- **the equation is preserved by `release_packet_id`** (fix ba1a812; before the fix `release` of an
+    identifier awaited by PUBACK / PUBREC freed the identifier and left both the wait set and the
+    counter alone — the application could not get the credit back, `C12Ex.release_returns_credit`):
+    for every identifier, in use or not, awaited or not.  An abandoned QoS>0 PUBLISH (identifier in
+    `puback` or `pubrec`) leaves its wait set and the counter moves by exactly one; otherwise
+    neither changes.  (`hdis`: the identifier is not awaited by PUBACK and PUBREC at once.) -/
+theorem C12_credit_invariant_release (c : C) (limbo : List Nat) (heq : CreditEq c.s limbo) (id : Nat)
+    (hn1 : c.s.puback.Nodup) (hn2 : c.s.pubrec.Nodup) (hdis : id ∈ c.s.puback → id ∉ c.s.pubrec) :
+    CreditEq (releasePacketId c id).s limbo ∧
+    (∀ M, c.s.sendMax = some M → isUsed c.s id = true → (id ∈ c.s.puback ∨ id ∈ c.s.pubrec) →
+      (releasePacketId c id).s.sendCount + 1 = c.s.sendCount ∧
+      waitCount (releasePacketId c id).s + 1 = waitCount c.s) ∧
+    (¬ (isUsed c.s id = true ∧ (id ∈ c.s.puback ∨ id ∈ c.s.pubrec)) →
+      (releasePacketId c id).s.sendCount = c.s.sendCount ∧ waitCount (releasePacketId c id).s = waitCount c.s) := by
+  have e1 := releasePacketId_puback c id
+  have e2 := releasePacketId_pubrec c id
+  have e3 : (releasePacketId c id).s.pubcomp = c.s.pubcomp := by simp
+  have e4 := releasePacketId_sendCount c id
+  have e5 : (releasePacketId c id).s.sendMax = c.s.sendMax := by simp
+  -- the awaited case, under a Receive Maximum
+  have aw : ∀ M, c.s.sendMax = some M → isUsed c.s id = true → (id ∈ c.s.puback ∨ id ∈ c.s.pubrec) →
+      (releasePacketId c id).s.sendCount + 1 = c.s.sendCount ∧
+      waitCount (releasePacketId c id).s + 1 = waitCount c.s := by
+    intro M hM hu ha
+    have e0 := heq M hM
+    have hs : c.s.sendMax.isSome = true := by simp [hM]
+    simp only [waitCount, e1, e2, e3, hu, if_true] at e0 ⊢
+    rcases ha with ha | ha
+    · have hb := hdis ha
+      have l1 := length_del ha hn1
+      rw [del_not_mem hb]
+      have hpos : c.s.sendCount > 0 := by omega
+      rw [e4, if_pos ⟨hu, .inl ha, hs, hpos⟩]
+      omega
+    · have hb : id ∉ c.s.puback := fun h => hdis h ha
+      have l1 := length_del ha hn2
+      rw [del_not_mem hb]
+      have hpos : c.s.sendCount > 0 := by omega
+      rw [e4, if_pos ⟨hu, .inr ha, hs, hpos⟩]
+      omega
+  have na : ¬ (isUsed c.s id = true ∧ (id ∈ c.s.puback ∨ id ∈ c.s.pubrec)) →
+      (releasePacketId c id).s.sendCount = c.s.sendCount ∧ waitCount (releasePacketId c id).s = waitCount c.s := by
+    intro hna
+    refine ⟨by rw [e4, if_neg (fun h => hna ⟨h.1, h.2.1⟩)], ?_⟩
+    simp only [waitCount, e1, e2, e3]
+    by_cases hu : isUsed c.s id = true
+    · have h1 : id ∉ c.s.puback := fun h => hna ⟨hu, .inl h⟩
+      have h2 : id ∉ c.s.pubrec := fun h => hna ⟨hu, .inr h⟩
+      simp only [hu, if_true, del_not_mem h1, del_not_mem h2]
+    · rw [if_neg hu, if_neg hu]
+  refine ⟨?_, aw, na⟩
+  intro M hM
+  rw [e5] at hM
+  have e0 := heq M hM
+  by_cases hc : isUsed c.s id = true ∧ (id ∈ c.s.puback ∨ id ∈ c.s.pubrec)
+  · obtain ⟨a1, a2⟩ := aw M hM hc.1 hc.2
+    omega
+  · obtain ⟨a1, a2⟩ := na hc
     omega
 
 /-- on resume (`send_stored`) the counter is recounted: it equals the number of stored packets
@@ -390,6 +451,22 @@ example : CreditEq sA [] ∧ sA.sendMax = some 1 ∧ sA.puback = [] ∧ sA.pubre
   intro M h; have : sA.sendMax = some 1 := by decide
   rw [this] at h; cases h; decide
 example : cB.s.sendMax.isSome ∧ cB.s.store.length ≤ 4294967295 ∧ (sendStored cB).s.sendCount = 1 := by decide
+
+/-- `C12_credit_invariant_release`, fixed by ba1a812: Receive Maximum 1, the QoS 1 PUBLISH id 1 is
+    outstanding (credit exhausted: a second PUBLISH is refused); the application abandons it with
+    `release 1` — the identifier leaves `puback`, the counter returns to 0, the equation holds, and
+    the next PUBLISH is accepted.  (Before the fix: `puback = [1]`, `sendCount = 1` for ever — no
+    PUBACK will come for a packet that was never transmitted — and every later PUBLISH refused.) -/
+theorem release_returns_credit :
+    CreditEq sB [] ∧ sB.puback = [1] ∧ sB.sendCount = 1 ∧ vacancy sB = some 0 ∧
+    (step cfg sB (.release 1)).ev = [.released 1] ∧ (step cfg sB (.release 1)).s.puback = [] ∧
+    (step cfg sB (.release 1)).s.sendCount = 0 ∧ vacancy (step cfg sB (.release 1)).s = some 1 ∧
+    (step cfg sB (.send (pub 1 2))).ev = [.error eRMExceeded, .released 2] ∧
+    (step cfg (step cfg sB (.release 1)).s (.send (pub 1 2))).ev.head? = some (.send { pub 1 2 with dup := false } none) := by
+  refine ⟨?_, by decide, by decide, by decide, by decide, by decide, by decide, by decide, by decide, by decide⟩
+  intro M h; have : sB.sendMax = some 1 := by decide
+  rw [this] at h; cases h; decide
+example : sB.puback.Nodup ∧ sB.pubrec.Nodup ∧ (1 ∈ sB.puback → 1 ∉ sB.pubrec) ∧ isUsed sB 1 = true := by decide
 
 end C12Ex
 
